@@ -55,8 +55,10 @@ pub fn check_one(s: &dyn Subject, ctx: &Ctx, rep: &mut DeclReport, raw: &Value, 
             if !spec.has_validation() {
                 rep.violate(&format!("{via}:err-without-validators"), raw.show(), obs.show(), "Ok".into(), String::new());
             }
-            rep.class(&format!("err:{variant}"));
-            rep.bump(&format!("err:{variant}"));
+            // custom error values embed the offending value: one class for all of them
+            let vclass = if spec.custom.is_some() { "custom-error" } else { variant.as_str() };
+            rep.class(&format!("err:{vclass}"));
+            rep.bump(&format!("err:{vclass}"));
         }
     }
     if exp.allowed.len() > 1 {
